@@ -3,10 +3,10 @@ package checks
 import (
 	"encoding/json"
 	"fmt"
-	"sort"
 	"os"
 	"os/exec"
 	"path/filepath"
+	"sort"
 	"strings"
 
 	"verif/engine/gosym"
@@ -25,8 +25,11 @@ var staleText = "#!/bin/bash\n" + strings.Repeat("echo STALE LINE OF AN EARLIER 
 
 const (
 	goodProg = "x := 7000000\nfor i := 0; i < 2; i++ {\n\tprint(x + i)\n}\n"
-	badProg  = "x := 1\nprint(y)\n"
-	lexBad   = "x := \"abc\n"
+	// a program that imports a file with top-level state (what one run emits for a second target must not depend on the first)
+	importingProg = "import l \"lib/state.tsh\"\nx := 7000000\nprint(l.Sum(x), l.Next())\n"
+	libState      = "Base := 40\ncount := 0\nprint(\"lib loaded\")\nfunc Sum(a int) int {\n\treturn a + Base\n}\nfunc Next() int {\n\tcount++\n\treturn count\n}\n"
+	badProg       = "x := 1\nprint(y)\n"
+	lexBad        = "x := \"abc\n"
 )
 
 // CheckC19: the tsh command writes exactly the library's output, or nothing.
@@ -56,7 +59,8 @@ func CheckC19(r *Run) int {
 		mountStd(c)
 		c.FS.Cwd = "/w"
 		c.FS.AddFile("/w/in/a.tsh", gosym.Conc(goodProg))
-		c.FS.AddFile("/w/in/a.b.tsh", gosym.Conc(goodProg))
+		c.FS.AddFile("/w/in/a.b.tsh", gosym.Conc(importingProg))
+		c.FS.AddFile("/w/in/lib/state.tsh", gosym.Conc(libState))
 		c.FS.AddFile("/w/in/noext", gosym.Conc(goodProg))
 		c.FS.AddFile("/w/in/my prog.tsh", gosym.Conc(goodProg))
 		c.FS.AddFile("/w/in/bad.tsh", gosym.Conc(badProg))
@@ -154,6 +158,13 @@ func CheckC19(r *Run) int {
 			before[p] = s
 		}
 		gp := c.Try(func() { c.Call(mainFn) })
+		if gp != nil && gp.Exit {
+			if iv, ok := gp.Val.(gosym.Iface); ok {
+				if code, isInt := iv.V.(int64); isInt && code == 0 {
+					gp = nil // os.Exit(0) is a normal end of the run
+				}
+			}
+		}
 		// what the run was asked to do, decided on this path (flags are concrete per path after forking)
 		in, out := "", ""
 		var targets []string
@@ -416,7 +427,7 @@ func confirmCmd(nat *Native, b cmdOutcome) (bool, string) {
 		x = "5"
 	}
 	good := strings.ReplaceAll(goodProg, "7000000", x)
-	w := map[string]string{"in/rel.1.0/build": good, "in/a.tsh": good, "in/a.b.tsh": good, "in/noext": good, "in/my prog.tsh": good, "in/bad.tsh": badProg, "in/lexbad.tsh": lexBad, "out/a.sh": staleText, "out/a.bat": staleText, "out/bad.sh": staleText, "out/a.b.sh": staleText, "out/a.b.bat": staleText, "out dir/my prog.sh": staleText}
+	w := map[string]string{"in/rel.1.0/build": good, "in/a.tsh": good, "in/a.b.tsh": strings.ReplaceAll(importingProg, "7000000", x), "in/lib/state.tsh": libState, "in/noext": good, "in/my prog.tsh": good, "in/bad.tsh": badProg, "in/lexbad.tsh": lexBad, "out/a.sh": staleText, "out/a.bat": staleText, "out/bad.sh": staleText, "out/a.b.sh": staleText, "out/a.b.bat": staleText, "out dir/my prog.sh": staleText}
 	for p, c := range w {
 		os.MkdirAll(filepath.Dir(filepath.Join(dir, p)), 0o777)
 		os.WriteFile(filepath.Join(dir, p), []byte(c), 0o666)
@@ -466,7 +477,7 @@ func confirmCmd(nat *Native, b cmdOutcome) (bool, string) {
 	if code == 0 {
 		for _, t := range targets {
 			ext := map[string]string{"bash": "sh", "batch": "bat"}[t]
-			res, err := nat.RunDrv([]DrvReq{{Op: "transpile", Files: map[string]string{"main.tsh": before[in]}, Main: "main.tsh", Target: t}}, 30e9)
+			res, err := nat.RunDrv([]DrvReq{{Op: "transpile", Files: map[string]string{"main.tsh": before[in], "lib/state.tsh": libState}, Main: "main.tsh", Target: t}}, 30e9)
 			if err != nil || ext == "" {
 				return true, desc + " (library rejects or unknown target)"
 			}
